@@ -303,6 +303,7 @@ class Evaluator:
         self.skip_calls = set()            # method / function names whose call statements are ignored (logging)
         self.arange_as_index = False       # np.arange(a, b) -> one generic index atom @k (range recorded in self.aranges)
         self.aranges = []
+        self.decorators_ok = set()         # keys of decorated functions whose wrapper was shown to be transparent
         self.last_loop = None              # summary of the most recent element loop (raises per character)
         self.opaque_calls = {}             # FuncInfo.key -> atom name (do not inline)
         self.trace = []                    # loop summaries for evidence
@@ -348,6 +349,9 @@ class Evaluator:
         """-> list of Path (kind return/raise/fall)"""
         if depth > MAX_DEPTH:
             raise Undecided("inlining depth exceeded", f.loc())
+        if f.node.decorator_list and f.key not in self.decorators_ok and f.key not in DECORATORS_OK:
+            raise Undecided("%s is decorated (%s): its body is not what a call executes" % (
+                f.qual, ", ".join(unparse(d) for d in f.node.decorator_list)), f.loc())
         env = {}
         params = f.params()
         args = dict(args or {})
@@ -1369,7 +1373,7 @@ class Evaluator:
                 return dict(v)
             raise Undecided("dict(%s)" % unparse(args[0])[:40], fr.f.loc(node))
         if name in ("float", "int", "str", "abs", "len", "list", "set", "min", "max", "sum", "range",
-                    "sorted", "tuple"):
+                    "sorted", "tuple", "round"):
             return self.builtin(name, node, env, fr)
         if isinstance(fn, ast.Attribute) and isinstance(fn.value, ast.Name) and fn.value.id in ("np", "numpy", "math"):
             return self.numpy(fn.attr, node, env, fr)
@@ -1507,6 +1511,12 @@ class Evaluator:
 
     def builtin(self, name, node, env, fr):
         args = [self.eval(a, env, fr) for a in node.args]
+        if name == "round" and len(args) == 1:
+            v = _as_rat(args[0])
+            if v is not None:
+                if v.is_const():
+                    return Rat.const(round(v.const_value()))
+                return fatom("round", v)
         if name in ("float", "int") and len(args) == 1:
             v = _as_rat(args[0])
             if v is None:
@@ -1638,6 +1648,10 @@ class Evaluator:
                 lo, hi = (Rat.const(0), rs[0]) if len(rs) == 1 else (rs[0], rs[1])
                 self.aranges.append((lo, hi))
                 return Rat.atom("@k")
+        if attr in ("round", "rint", "around") and len(args) == 1:
+            a = _as_rat(args[0])
+            if a is not None:
+                return fatom("round", a) if not a.is_const() else Rat.const(round(a.const_value()))
         if attr in ("argmin", "argmax", "mean", "log10") and len(args) == 1:
             a = _as_rat(args[0])
             if a is not None:
@@ -1693,6 +1707,7 @@ class Evaluator:
         raise Undecided("numpy/math idiom %s not in the normaliser's table" % attr, fr.f.loc(node))
 
 
+DECORATORS_OK = set()   # keys of decorated functions whose (memoising) wrapper was shown key-complete by MEMO-KEY
 ABS_REG = {}     # atom name -> Rat it is the absolute value of
 FUNC_REG = {}    # function atom name -> (kind, [argument Rats])
 
